@@ -972,7 +972,32 @@ impl Hist {
         let id = r.pick(&ids);
         let p = w.pos(id).unwrap();
         match choice {
-            28 | 29 => format!("H upd {}", id),
+            28 => format!("H upd {}", id),
+            29 => {
+                // opening a position through the entrypoint (explicit, derived and invalid bounds)
+                let ts = wp.tick_spacing;
+                let cur = wp.tick_current_index;
+                let span = (ts as i32) * r.pick(&[1, 2, 5, 20, 88]);
+                let full = (((-443636 / ts as i32) * ts as i32) as i64, ((443636 / ts as i32) * ts as i32) as i64);
+                let (lo, hi): (i64, i64) = match r.below(9) {
+                    0 => (i32::MIN as i64, usable(r, ts, cur, cur + 2 * span) as i64),
+                    1 => (usable(r, ts, cur - 2 * span, cur) as i64, i32::MAX as i64),
+                    2 => (i32::MIN as i64, i32::MAX as i64),
+                    3 => (i32::MIN as i64, usable(r, ts, cur - 2 * span, cur) as i64),
+                    4 => full,
+                    5 => (usable(r, ts, cur - span, cur + span) as i64 + 1, usable(r, ts, cur, cur + 2 * span) as i64),
+                    6 => {
+                        let x = usable(r, ts, cur - span, cur + span) as i64;
+                        (x, x)
+                    }
+                    _ => {
+                        let a = usable(r, ts, cur - span, cur + span / 2);
+                        let bb = usable(r, ts, a + ts as i32, a + 2 * span).max(a + ts as i32);
+                        (a as i64, bb as i64)
+                    }
+                };
+                format!("H xopen {} {} {} {}", r.pick(&[1u8, 2, 3]), lo, hi, b(r.chance(1, 2)))
+            }
             8..=27 => {
                 let l = match r.below(6) {
                     0 => r.log_u128(40),
@@ -1394,6 +1419,22 @@ impl Family for Hist {
                     ctx.tag("xsub");
                     // skipped experiments (control fails / no look-alike exists) are counted in the tags
                     (if o.line == "ACCEPTED" { "ACCEPTED" } else { "rejected" }).to_string() + " | " + &w.digest()
+                }
+                Err(_) => "err HarnessPanic | ".to_string() + &w.digest(),
+            };
+        }
+        if t[1] == "xopen" {
+            let o = std::panic::catch_unwind(std::panic::AssertUnwindSafe(|| w.x_open(&t)));
+            return match o {
+                Ok(o) => {
+                    for v in o.viols {
+                        ctx.viol(v);
+                    }
+                    for tg in o.tags {
+                        ctx.tag(tg);
+                    }
+                    ctx.tag("xopen");
+                    o.line + " | " + &w.digest()
                 }
                 Err(_) => "err HarnessPanic | ".to_string() + &w.digest(),
             };
